@@ -14,6 +14,10 @@ import (
 	"github.com/rhysd/actionlint"
 )
 
+// a reusable workflow whose input / secret / output names are not all lower case, and a caller that spells them differently
+const c10ReusableNames = "on:\n  workflow_call:\n    inputs:\n      MyInput:\n        type: string\n        required: true\n      other_Input:\n        type: number\n    secrets:\n      MyTok:\n        required: true\n    outputs:\n      buildVersion:\n        value: ${{ jobs.j.outputs.o }}\n      PLAIN:\n        value: x\njobs:\n  j:\n    runs-on: ubuntu-latest\n    outputs:\n      o: x\n    steps:\n      - run: echo ${{ inputs.MyInput }} ${{ inputs.myinput }}\n"
+const c10CallerNames = "on: push\njobs:\n  c:\n    uses: ./.github/workflows/reusable-names.yml\n    with:\n      myinput: x\n      OTHER_INPUT: 3\n    secrets:\n      mytok: ${{ secrets.T }}\n  d:\n    needs: c\n    runs-on: ubuntu-latest\n    steps:\n      - run: echo ${{ needs.c.outputs.buildVersion }} ${{ needs.c.outputs.BUILDVERSION }} ${{ needs.c.outputs.plain }} ${{ needs.c.outputs.nope }}\n"
+
 func init() { props["C10"] = runC10 }
 
 // deepType prints a type with everything String() hides: the properties of loose objects, the mapped type and
@@ -130,7 +134,7 @@ func runC10(c *ctx, r *Report) error {
 			os.WriteFile(filepath.Join(root, ".github", "workflows", n), []byte(s), 0o644)
 		}
 	}
-	mk("repo", "self-hosted-runner:\n  labels: [gpu-box]\nconfig-variables: [ZETA, DEPLOY_ENV, ALPHA]\n", map[string]string{"reusable.yml": c10Reusable, "caller.yml": c10Caller, "misc.yml": c10Misc, "ctxmatrix.yml": c10CtxMatrix, "ctxreader.yml": c10CtxReader, "reusable-caps.yml": c10ReusableCaps, "caller-caps.yml": c10CallerCaps, "clean.yml": "on: push\njobs:\n  j:\n    runs-on: ubuntu-latest\n    steps:\n      - run: echo\n"})
+	mk("repo", "self-hosted-runner:\n  labels: [gpu-box]\nconfig-variables: [ZETA, DEPLOY_ENV, ALPHA]\n", map[string]string{"reusable.yml": c10Reusable, "caller.yml": c10Caller, "misc.yml": c10Misc, "ctxmatrix.yml": c10CtxMatrix, "ctxreader.yml": c10CtxReader, "reusable-caps.yml": c10ReusableCaps, "caller-caps.yml": c10CallerCaps, "reusable-names.yml": c10ReusableNames, "caller-names.yml": c10CallerNames, "clean.yml": "on: push\njobs:\n  j:\n    runs-on: ubuntu-latest\n    steps:\n      - run: echo\n"})
 	mk("repo2", "self-hosted-runner:\n  labels: []\nconfig-variables: [UNKNOWN_VAR]\n", map[string]string{"reusable.yml": c10Reusable, "caller.yml": c10Caller, "misc.yml": c10Misc})
 	var files []string
 	for _, repo := range []string{"repo", "repo2"} {
@@ -254,6 +258,58 @@ func runC10(c *ctx, r *Report) error {
 			if fp := tableFingerprint(); fp != fp0 {
 				r.finding("builtin-table-modified", "an exported built-in table changed during linting", Case{Op: "lintfiles", Input: desc})
 				fp0 = fp
+			}
+		}
+	}
+	// the interface of a reusable workflow is derived from its file (when only the caller is linted) or from its AST (when
+	// the reusable workflow itself was linted first): both must give the caller the same diagnostics. Deterministic form:
+	// one Linter lints the callee and then the caller; a fresh Linter lints the caller alone. And the scheduled form: both
+	// files in one call, both orders, GOMAXPROCS 1 / 4 / 16, repeated.
+	for _, pair := range [][2]string{{"reusable.yml", "caller.yml"}, {"reusable-caps.yml", "caller-caps.yml"}, {"reusable-names.yml", "caller-names.yml"}} {
+		callee := filepath.Join(tmp, "repo", ".github", "workflows", pair[0])
+		caller := filepath.Join(tmp, "repo", ".github", "workflows", pair[1])
+		fresh := func() *actionlint.Linter {
+			l, _ := actionlint.NewLinter(nopWriter{}, &actionlint.LinterOptions{Shellcheck: "", Pyflakes: ""})
+			return l
+		}
+		e0, err := fresh().LintFile(caller, nil)
+		if err != nil {
+			return err
+		}
+		want := canon(e0)[caller]
+		l := fresh()
+		if _, err := l.LintFile(callee, nil); err != nil {
+			return err
+		}
+		e1, err := l.LintFile(caller, nil)
+		if err != nil {
+			return err
+		}
+		r.Evaluations += 2
+		r.nontrivial("interface-two-ways:" + pair[0])
+		if got := canon(e1)[caller]; got != want {
+			r.finding("interface-from-file-and-from-ast-differ", fmt.Sprintf("the diagnostics of %s differ between a run that read %s from its file and a run that had linted it before (interface taken from the AST)", pair[1], pair[0]),
+				Case{Op: "lintfile-sequence", Input: map[string]string{"callee": func() string { b, _ := os.ReadFile(callee); return string(b) }(), "caller": func() string { b, _ := os.ReadFile(caller); return string(b) }()}, Impl: got, Model: want})
+		}
+		reps := 10
+		if !c.quick {
+			reps = 100
+		}
+		for k := 0; k < reps*6; k++ {
+			order := []string{callee, caller}
+			if k%2 == 1 {
+				order = []string{caller, callee}
+			}
+			runtime.GOMAXPROCS([]int{1, 4, 16}[(k/2)%3])
+			errs, err := fresh().LintFiles(order, nil)
+			r.Evaluations++
+			if err != nil {
+				return err
+			}
+			if got := canon(errs)[caller]; got != want {
+				r.finding("interface-from-file-and-from-ast-differ", fmt.Sprintf("the diagnostics of %s linted together with %s differ from linting it alone", pair[1], pair[0]),
+					Case{Op: "lintfiles", Input: map[string]string{"order": fmt.Sprint(k%2 == 1), "gomaxprocs": fmt.Sprint([]int{1, 4, 16}[(k/2)%3])}, Impl: got, Model: want})
+				break
 			}
 		}
 	}
